@@ -1,7 +1,7 @@
 (* C17 -- Bond detection equals the minimum-image covalent-radius rule.
    Model: Model/Bonds.v (cutoff100 = max_bond_length x 100, detect), generic in the radius table; the instance for the
    repository's current COVALENT_RADII / NON_METALS is pertree/C17_tables.v (regenerated on every run). *)
-From Coq Require Import ZArith List Bool String Arith.
+From Coq Require Import ZArith List Bool String Arith Sorted.
 From Mofun Require Import Model.Atoms Model.Geom Model.Bonds Proofs.BondsProofs.
 Import ListNotations.
 Open Scope Z_scope.
@@ -11,6 +11,12 @@ Theorem C17_spec : forall radii non_metals U cell atoms l, detect radii non_meta
   forall p q, In (p, q) l <-> (p < q)%nat /\ exists a b, nth_error atoms p = Some a /\ nth_error atoms q = Some b /\ bonded radii non_metals U cell a b = Some true.
 Proof. exact detect_spec. Qed.
 Print Assumptions C17_spec.
+
+(* each pair is reported once, with the lower index first, in lexicographic order *)
+Theorem C17_each_pair_once_in_order : forall radii non_metals U cell atoms l, detect radii non_metals U cell atoms = Some l ->
+  StronglySorted pair_lt l /\ NoDup l.
+Proof. exact detect_sorted. Qed.
+Print Assumptions C17_each_pair_once_in_order.
 
 (* minimum image: for atoms inside the cell and a criterion that only holds below every perpendicular cell width (the largest
    cutoff), "some lattice translate is within the cutoff" <-> "one of the 27 neighbour translates is" *)
